@@ -25,7 +25,8 @@ def specU64 (bs : List Nat) : Option (Nat × Nat) := Spec.uleb64 bs
 def mismatch (m s : String) : String := s!"MODEL-SPEC-MISMATCH model={m} spec={s}"
 
 def searchOps : List String :=
-  ["pq", "pqraw", "tmeta", "rle", "ipc", "ipcraw", "ocf", "ocfraw", "csv", "json", "variant", "flight", "dict"]
+  ["pq", "pqraw", "tmeta", "rle", "ipc", "ipcraw", "ocf", "ocfraw", "csv", "csvraw", "json", "jsonraw",
+   "variant", "variantraw", "ipcz", "ipczraw", "flight", "dict"]
 
 /-- Avro `read_varint` + zig-zag; model and ULEB128-u64 specification must agree on every input -/
 def avlqAnswer (h : String) : String :=
